@@ -3,6 +3,7 @@ import MesaModel.Model.VizLayers
 import MesaModel.Model.VizAltair
 import MesaModel.Model.VizInputs
 import MesaModel.Model.VizKwargs
+import MesaModel.Model.VizSize
 /-!
 Line-protocol driver for the Viz model (C20).  One output line per input line.
 Producer: harness/viz_common.py.
@@ -18,6 +19,7 @@ Producer: harness/viz_common.py.
   collect | collectd COLOR SIZE MARKER ZORDER
   draw | altair | heap | drawc | altairc   (…c: through the solara component)
   drawk K=V …                        draw_space(…, **{K: V}), K ∈ alpha edgecolors linewidths (plotting keyword arguments)
+  sdefault                           the size of the markers of agents whose portrayal names none (`none` without agents)
   drawc0 | altairc0                  the components without a portrayal (their defaults: `{}`, `{"id": unique_id}`)
   layer v…                           property layer `v`: values, x-major (W*H ints);  layern NAME v…: layer NAME
   drawlayers SPEC…                   SPEC = NAME:MODE:ALPHA:VMIN:VMAX:CBAR, MODE ∈ color=C cmap=C none, ALPHA percent,
@@ -369,6 +371,13 @@ def stepLine (st : St) (ws : List String) : St × String :=
           | .ok d => (st, fmtDrawKw d)
           | .error .attribute => (st, "err Attribute")
           | .error (.conflict k) => (st, s!"err Value conflict {k}")
+  | ["sdefault"] =>
+    withSpace st fun sp =>
+      if sp.placed.isEmpty then (st, "ok none")
+      else match defaultSize sp with
+        | .exact f => (st, s!"ok {fmtFrac f}")
+        | .layout => (st, "ok layout")
+        | .undefined => (st, "ok undefined")
   | ["draw"] =>
     withSpace st fun sp =>
       match drawSpace sp st.heap st.portrayal with
